@@ -6,7 +6,6 @@ import (
 	"errors"
 	"io"
 
-	"golang.org/x/telemetry/internal/vrt"
 	"golang.org/x/telemetry/internal/vrt/vos"
 )
 
@@ -33,9 +32,9 @@ func Reset() { Log = nil; PostHook = nil }
 const StatusOK = 200
 
 func Post(url, contentType string, body io.Reader) (*Response, error) {
-	vrt.Yield() // a request is a scheduling point for harness threads
-	if vos.Dead {
-		return nil, vos.ErrDead
+	// a request is a scheduling point and a possible kill point, like a file-system call
+	if err := vos.Step("post", url); err != nil {
+		return nil, err
 	}
 	b, _ := io.ReadAll(body)
 	code, err := 200, error(nil)
